@@ -3,6 +3,7 @@ EXTENDS SchemaStore, Json
 NewNamesDef == {"Delta", "Kappa"}
 NewNames3Def == {"Delta", "Kappa", "Zeta"}
 UnitNamesDef == {"jiffy"}
+UnitNamesSlash == {"jif/fy"}        \* a unit symbol like km/h: a slash inside the NAME of an entry that is not a tag
 DescKindsDef == {"none", "plain", "quote"}
 DescKindsAllDef == {"none", "plain", "eq", "quote", "qstart", "unicode", "markup"}
 AttrOptsDef == { <<"extensionAllowed", {"true"}>>, <<"extensionAllowed", {}>>,
